@@ -129,4 +129,7 @@ pub fn emit(e: &mut Emitter, seed: u64, thorough: bool) {
             }
         }
     }
+    // Keccak hasher (src/c12k.rs) and batch Merkle trees (src/c12b.rs)
+    crate::c12k::emit(e, seed, thorough);
+    crate::c12b::emit(e, seed, thorough);
 }
